@@ -206,12 +206,22 @@ def scenarios(tier: str) -> tuple[list[C03Scenario], list[C03Scenario], list[C03
     return hist, crash, timing
 
 
+def tie_scenarios() -> list[C03Scenario]:
+    """The last change arrives in the very instant the object's idle worker retires (queueing idle_timeout 5.0 after its last
+    event): every order of {timeout fires, edit is made, event is delivered, loop steps} is a schedule (coincide=True)."""
+    out = []
+    for h in ([('spec', 'a', 2)], [('label', 'a', 'l', 'v')], [('spec', 'a', 2), ('spec', 'a', 1)], [('spec', 'a', 2), ('delete', 'a')]):
+        out.append(build(h, 5.0, 1, 0, coincide=True, delays=False, time_dev=False))
+    return out
+
+
 def run(tier: str, seed: int) -> CheckResult:
     hist, crash, timing = scenarios(tier)
+    ties = tie_scenarios()
     if tier == 'quick':
-        groups = [('histories', hist, 0, 60.0), ('crash-points', crash, 1, 40.0), ('timing', timing, 1, 40.0)]
+        groups = [('histories', hist, 0, 60.0), ('crash-points', crash, 1, 40.0), ('timing', timing, 1, 40.0), ('idle-worker-tie', ties, 2, 30.0)]
     else:
-        groups = [('histories', hist, 0, 600.0), ('crash-points', crash, 2, 600.0), ('timing', timing, 2, 600.0)]
+        groups = [('histories', hist, 0, 600.0), ('crash-points', crash, 2, 600.0), ('timing', timing, 2, 600.0), ('idle-worker-tie', ties, 3, 300.0)]
     stats, viols, info, nscen = run_groups(groups, seed=seed)
     return CheckResult(
         prop='C03', tier=tier, seed=seed, stats=stats, violations=viols, scenarios=nscen,
